@@ -21,7 +21,7 @@ import scipy.sparse as sp
 from toqito.perms import (antisymmetric_projection, perfect_matchings, perm_sign, permutation_operator,
                           symmetric_projection, unique_perms)
 
-from ..exact import Pure, case_rng, describe, present_nd
+from ..exact import Pure, case_rng, describe, present_nd, strict_fp_call
 
 RULE = ("enumerated, not sampled: every permutation of 1..n (n<=6; quick: n<=5 plus seeded random n=6) for perm_sign, every multiset "
         "of <=6 elements over <=4 values (one sorted and one seeded-shuffled listing, two value alphabets) for unique_perms, every n<=10 "
@@ -34,7 +34,11 @@ RULE = ("enumerated, not sampled: every permutation of 1..n (n<=6; quick: n<=5 p
         "Call sequences: for every multiset (one seeded listing) it = unique_perms(buf); the caller's list is edited in place (append a new / a repeated value, clear, "
         "overwrite an element, pop, extend, reverse) before the first or after the first next(it); list(it) must be the distinct rearrangements of the contents of buf AT THE CALL "
         "(each once) and consuming must not write into buf; one enumerator per prefix of a growing work list consumed afterwards (forward / reverse / round-robin); "
-        "perfect_matchings(list / ndarray) rows must stay the matchings of the objects passed when the caller edits its argument afterwards")
+        "perfect_matchings(list / ndarray) rows must stay the matchings of the objects passed when the caller edits its argument afterwards. "
+        "strict-fp stream: perm_sign (list / ndarray, 1- and 0-indexed), unique_perms, perfect_matchings (int / list / ndarray) and both projectors (dense and partial=True, "
+        "including p = 1, dim < p and dim = 1) are called once in the default state and once with NumPy's error state set to raise for invalid / divide / overflow "
+        "(harness.exact.strict_fp_call); the outcome must be the same (exact equality; partial=True: equal within 1e-12); corpus first, seeded cases from ctx.rng.spawn(1)[0]. "
+        "same-object stream: unique_perms of a list that holds ONE object several times must list what it lists for equal, distinct objects")
 ASSUMPTIONS = [
     "LAPACK LU (scipy.linalg.det) is exact on column-selected identity matrices (entries 0/1, one 1 per column); checked on every evaluated input",
     "float64 sums of 0/+-1 and one division by p! are correctly rounded (IEEE 754), so impl == k/p! is an exact comparison",
@@ -658,6 +662,127 @@ def check_pair(ctx, d, p, model_ok):
 TABLE = [(d, p) for p in range(1, 5) for d in range(1, 5) if d ** p <= 256]
 
 
+# ------------------------------------------------------------------------------------------------ strict-fp / same-object streams
+
+def _norm(v):
+    """comparable form of a return value: ndarray (sparse densified), or list(tuple) for generators / lists"""
+    if sp.issparse(v):
+        return v.toarray()
+    if isinstance(v, np.ndarray):
+        return v
+    if isinstance(v, (float, int, np.floating, np.integer)):
+        return np.asarray(v)
+    return [tuple(x) if isinstance(x, (list, tuple, np.ndarray)) else x for x in v]
+
+
+def _same(a, b, tol=0.0):
+    if isinstance(a, np.ndarray) != isinstance(b, np.ndarray):
+        return False
+    if isinstance(a, np.ndarray):
+        if a.shape != b.shape or a.dtype != b.dtype:
+            return False
+        if np.array_equal(a, b):
+            return True
+        return bool(tol > 0 and a.size and np.all(np.isfinite(a)) and np.all(np.isfinite(b)) and np.max(np.abs(a - b)) <= tol)
+    return a == b
+
+
+def check_strict_fp(ctx, name, make, desc, tol=0.0):
+    """`make()` returns a fresh thunk; default state vs harness.exact.strict_fp_call: same outcome.  A sqrt / log / division evaluated on exact zeros and
+    masked afterwards (np.where) is invisible in the default state and raises under np.seterr(all='raise')."""
+    ctx.case(dict(desc, stream="strict-fp"), True, f"strict-fp/{name}")
+    st0, v0 = _call(lambda: _norm(make()()))
+    st1, v1 = strict_fp_call(lambda: _norm(make()()))
+    info = {"function": name, "args": desc, "stream": "strict-fp"}
+    if st0 == "ok" and st1 != "ok":
+        ctx.violation(f"{name}: value depends on NumPy's floating-point error state: returns in the default state, raises {v1} under np.seterr(invalid/divide/over='raise')",
+                      dict(info, impl_default_state=repr(v0)[:300], impl_strict_state=v1))
+    elif st0 != st1:
+        ctx.violation(f"{name}: outcome depends on NumPy's floating-point error state: {v0} in the default state, returns under np.seterr(invalid/divide/over='raise')",
+                      dict(info, impl_default_state=v0, impl_strict_state=repr(v1)[:300]))
+    elif st0 == "ok" and not _same(v0, v1, tol):
+        ctx.violation(f"{name}: value depends on NumPy's floating-point error state: the value under np.seterr(invalid/divide/over='raise') differs from the default-state value",
+                      dict(info, impl_default_state=repr(v0)[:300], impl_strict_state=repr(v1)[:300]))
+    elif st0 == "raise" and v0.split(":")[0] != v1.split(":")[0]:
+        ctx.violation(f"{name}: exception depends on NumPy's floating-point error state: {v0} in the default state, {v1} under np.seterr(invalid/divide/over='raise')",
+                      dict(info, impl_default_state=v0, impl_strict_state=v1))
+
+
+def strict_projector(ctx, d, p, anti, partial):
+    name = "antisymmetric_projection" if anti else "symmetric_projection"
+    fn = antisymmetric_projection if anti else symmetric_projection
+    check_strict_fp(ctx, name, lambda: (lambda: fn(d, p, partial)), {"fn": name, "dim": d, "p": p, "partial": bool(partial)}, tol=1e-12 if partial else 0.0)
+
+
+def strict_perm_sign(ctx, perm, form):
+    mk = (lambda: (lambda: perm_sign(list(perm)))) if form == "list" else (lambda: (lambda: perm_sign(np.array(perm, dtype=np.int64))))
+    check_strict_fp(ctx, "perm_sign", mk, {"fn": "perm_sign", "perm": list(perm), "form": form})
+
+
+def strict_unique_perms(ctx, elements):
+    check_strict_fp(ctx, "unique_perms", lambda: (lambda: list(unique_perms(list(elements)))), {"fn": "unique_perms", "elements": list(elements)})
+
+
+def strict_matchings(ctx, objs, form):
+    arg = {"int": lambda: len(objs), "list": lambda: list(objs), "array": lambda: np.array(objs, dtype=np.int64)}[form]
+    check_strict_fp(ctx, "perfect_matchings", lambda: (lambda: perfect_matchings(arg())), {"fn": "perfect_matchings", "objects": list(objs), "form": form})
+
+
+def check_same_object(ctx, values):
+    """unique_perms([a, a, b, ...]) with ONE object a in several slots lists what it lists for equal, distinct objects (values > 256: CPython does not intern them)"""
+    desc = {"fn": "unique_perms", "elements": list(values), "stream": "same-object"}
+    ctx.case(desc, len(set(values)) >= 2 and len(set(values)) < len(values), "same-object/unique_perms")
+    canon = {v: int(str(v)) for v in set(values)}
+    shared = [canon[v] for v in values]                 # one object per value
+    copies = [int(str(v)) for v in values]              # a fresh object per slot
+    out_s = _call(lambda: sorted(tuple(t) for t in unique_perms(shared)))
+    out_c = _call(lambda: sorted(tuple(t) for t in unique_perms(copies)))
+    if out_s[0] != out_c[0] or (out_s[0] == "ok" and out_s[1] != out_c[1]) or (out_s[0] == "raise" and out_s[1].split(":")[0] != out_c[1].split(":")[0]):
+        ctx.violation("unique_perms: a list holding the same object in several slots is treated differently from a list of equal, distinct objects",
+                      {"function": "unique_perms", "args": desc, "stream": "same-object", "impl_same_object": repr(out_s[1])[:300], "impl_copies": repr(out_c[1])[:300]})
+    elif out_s[0] == "ok" and out_s[1] != _spec_perms(list(values))[0]:
+        ctx.violation("unique_perms: a list holding the same object in several slots is not listed as its distinct rearrangements",
+                      {"function": "unique_perms", "args": desc, "stream": "same-object", "impl_same_object": repr(out_s[1])[:300]})
+
+
+def run_strict(ctx):
+    quick = ctx.tier == "quick"
+    srng = ctx.rng.spawn(1)[0]
+    # corpus: the early returns (p = 1, dim < p with and without partial), dim = 1, the smallest non-trivial projectors
+    for d, p in ((2, 2), (1, 2), (2, 3), (3, 1), (1, 1), (3, 2), (2, 4), (3, 3)):
+        for anti in (True, False):
+            for partial in (False, True):
+                strict_projector(ctx, d, p, anti, partial)
+    for perm in ([1], [1, 2], [2, 1], [3, 1, 2], [1, 3, 2], [4, 3, 2, 1]):
+        strict_perm_sign(ctx, perm, "list")
+        strict_perm_sign(ctx, perm, "array")
+    for perm in ([0], [1, 0], [2, 0, 1]):
+        strict_perm_sign(ctx, perm, "array")
+    for elems in ([], [1], [1, 1], [1, 1, 2], [0, 0, 0, 5], [-3, 0, 17, 17]):
+        strict_unique_perms(ctx, elems)
+    for n in (1, 2, 3, 4, 6):
+        strict_matchings(ctx, list(range(n)), "int")
+    strict_matchings(ctx, [5, 3, 8, 1], "list")
+    strict_matchings(ctx, [5, 3, 8, 1, 0, 2], "array")
+    for vals in ([1000003, 1000003, 7], [300, 300, 300], [1000, 2000, 1000, 2000], [5, 5, 9]):
+        check_same_object(ctx, vals)
+    # seeded
+    for _ in range(6 if quick else 20):
+        d, p = TABLE[int(srng.integers(len(TABLE)))]
+        if d ** p > 81:
+            d, p = 3, 4 - int(srng.integers(3))
+        strict_projector(ctx, d, p, bool(srng.integers(2)), bool(srng.integers(2)))
+    for _ in range(8 if quick else 40):
+        n = int(srng.integers(2, 8))
+        strict_perm_sign(ctx, [int(x) + 1 for x in srng.permutation(n)], "list" if srng.integers(2) else "array")
+    for _ in range(4 if quick else 20):
+        strict_unique_perms(ctx, [int(x) for x in srng.choice([1, 2, -4, 400], size=int(srng.integers(2, 6)))])
+        check_same_object(ctx, [int(x) for x in srng.choice([1000, 2000, 3000], size=int(srng.integers(2, 6)))])
+    for _ in range(3 if quick else 10):
+        n = int(srng.choice([2, 4, 5, 6]))
+        strict_matchings(ctx, [int(x) for x in srng.choice(100, size=n, replace=False)], "list" if srng.integers(2) else "array")
+
+
 # ------------------------------------------------------------------------------------------------ entry points
 
 def run(ctx, model_ok=True):
@@ -755,13 +880,25 @@ def run(ctx, model_ok=True):
             for form in forms:
                 check_partial(ctx, d, p, anti, model_ok, form)
     probe_guards(ctx, model_ok)
+    run_strict(ctx)
     ctx.extra["projector_table"] = [list(t) for t in TABLE]
 
 
 def replay(ctx, rec):
     a = rec.get("args", {})
     fn = a.get("fn")
-    if fn == "perm_sign":
+    if rec.get("stream") == "strict-fp" or a.get("stream") == "strict-fp":
+        if fn == "perm_sign":
+            strict_perm_sign(ctx, a["perm"], a.get("form", "list"))
+        elif fn == "unique_perms":
+            strict_unique_perms(ctx, a["elements"])
+        elif fn == "perfect_matchings":
+            strict_matchings(ctx, a["objects"], a["form"])
+        else:
+            strict_projector(ctx, a["dim"], a["p"], fn.startswith("anti"), a["partial"])
+    elif rec.get("stream") == "same-object" or a.get("stream") == "same-object":
+        check_same_object(ctx, a["elements"])
+    elif fn == "perm_sign":
         check_perm_sign(ctx, a["perm"], True)
     elif fn == "perm_sign_mul":
         check_perm_sign_mul(ctx, a["s"], a["t"])
